@@ -45,10 +45,12 @@ def g(f):
         return {"err": adapter.err_class(e)}
 
 
-def check_tree(ctx, out, spec, tag, rot, levelorder=False):
+def check_tree(ctx, out, spec, tag, rot, levelorder=False, tree=None):
     # levelorder: the same tree created level by level, siblings back to front: the registration order of the
     # indexes then differs from the document order (searches must not depend on it)
-    tree = (adapter.build_levelorder if levelorder else adapter.build)(spec, ctx.pool)
+    given = tree is not None
+    if tree is None:
+        tree = (adapter.build_levelorder if levelorder else adapter.build)(spec, ctx.pool)
     ser = adapter.Serials()
     ser.by_obj[id(tree.system_root)] = 0
     ser.keep.append(tree.system_root)
@@ -61,7 +63,12 @@ def check_tree(ctx, out, spec, tag, rot, levelorder=False):
     def i(n):
         return None if n is None else ser.of(n)
 
-    paths = [()] + list(gen.all_paths(spec))
+    if given:
+        import histories as H
+
+        paths = [()] + [tuple(p) for p in H.paths_of(tree)]
+    else:
+        paths = [()] + list(gen.all_paths(spec))
     for path in paths:
         start = adapter.node_at(tree, path)
         for kind, arg in PATTERNS:
@@ -220,6 +227,39 @@ def run(ctx):
         check_tree(ctx, out, spec, "rnd", rot)
         check_tree(ctx, out, spec, "rnd-lo", rot, levelorder=True)
         out.dist["random_tree"] += 1
+    # trees REACHED through mutation histories (re-keyed nodes, removed clones, explicit ids that are also the data of other
+    # nodes): searches and index access must follow from the tree as it is now, not from what an index once held
+    import histories as H
+    import world
+
+    for h in range(100 if ctx.thorough else 20):
+        impl = world.ImplWorld(ctx.pool)
+        impl.new(False)
+        impl.new(False)
+        impl._bij = world.Bij()
+        log = []
+        for i in range(ctx.rng.randrange(5, 30 if ctx.thorough else 18)):
+            ti = 0 if ctx.rng.random() < 0.85 else 1
+            op = H.random_op(ctx.rng, impl, ti, labels=[0, 1, 6, 7, 12], malformed=0.03, did_rate=0.35, dids=("A", "B", "a1", 7, 0, ""),
+                             ops=["add", "add", "add", "addnode", "move", "remove", "remove", "setdata", "setdata", "setdata", "del"])
+            impl.apply(op)
+            log.append(H.clean(op))
+            if i % 6 == 5:
+                # query - mutate - query: the same tree object is searched at several points of its history (an answer
+                # memoised by an earlier search must not survive a mutation)
+                try:
+                    check_tree(ctx, out, {"history": list(log), "tree": 0, "checked_every": 6}, "hist", rot, tree=impl.trees[0])
+                except core.MachineryError:
+                    raise
+                except Exception as e:  # noqa
+                    out.fail(dict(q="history", spec={"history": list(log), "tree": 0}), f"searches raised {type(e).__name__}: {e} on a tree reached by {len(log)} operations")
+        try:
+            check_tree(ctx, out, {"history": log, "tree": 0, "checked_every": 6}, "hist", rot, tree=impl.trees[0])
+        except core.MachineryError:
+            raise
+        except Exception as e:  # noqa
+            out.fail(dict(q="history", spec={"history": log, "tree": 0}), f"searches raised {type(e).__name__}: {e} on a tree reached by {len(log)} operations")
+        out.dist["history_tree"] += 1
     return out
 
 
@@ -246,5 +286,19 @@ def replay(ctx, rp):
     from props.c10 import tuplify_d
 
     out = core.Outcome()
-    check_tree(ctx, out, tuplify_d(rp["case"]["spec"]), "replay", itertools.count(), levelorder=bool(rp["case"].get("levelorder")))
+    sp = rp["case"]["spec"]
+    if isinstance(sp, dict) and "history" in sp:
+        import world
+
+        impl = world.ImplWorld(ctx.pool)
+        impl.new(False)
+        impl.new(False)
+        impl._bij = world.Bij()
+        for i, op in enumerate(sp["history"]):
+            impl.apply(dict(op))
+            if sp.get("checked_every") and i % sp["checked_every"] == sp["checked_every"] - 1 and i + 1 < len(sp["history"]):
+                check_tree(ctx, core.Outcome(), sp, "replay-warm", itertools.count(), tree=impl.trees[sp["tree"]])
+        check_tree(ctx, out, sp, "replay", itertools.count(), tree=impl.trees[sp["tree"]])
+    else:
+        check_tree(ctx, out, tuplify_d(sp), "replay", itertools.count(), levelorder=bool(rp["case"].get("levelorder")))
     return dict(failures=out.oracle_failures[:8], disagreements=out.disagreements[:5], property_holds=not out.oracle_failures)
